@@ -899,7 +899,7 @@ pub struct CharacterClassRegistry { _private: () }
         Struct(F_FMI, 'FindMatchesImpl', derive=[]),
         Enum(F_FM, 'PeekResult'),
         Struct(F_POS, 'Position', derive=[]),
-        RawFile('iter_spec.rs'),
+        RawFile('../u_iter/iter_spec.rs'),
     ] + VALUE_FNS + CONTRACTS + [
         merge_line_offsets,
         record_line_offset,
